@@ -334,6 +334,8 @@ func pctEncode(s string) string {
 var hosts = []host{
 	{name: "html script", hostType: "text/html", build: func(p string) string { return "<script>" + p + "</script>" }, wantType: "application/javascript", pre: ident, extract: htmlElemText("script"), rawText: true},
 	{name: "html script type=text/javascript", hostType: "text/html", build: func(p string) string { return "<script type=\"text/javascript\">" + p + "</script>" }, wantType: "text/javascript", pre: ident, extract: htmlElemText("script"), rawText: true},
+	// media types compare case-insensitively (RFC 2045 5.1): the minifier itself treats this spelling as the JavaScript default
+	{name: "html script type=Text/JavaScript", hostType: "text/html", build: func(p string) string { return "<script type=\"Text/JavaScript\">" + p + "</script>" }, wantType: "text/javascript", pre: ident, extract: htmlElemText("script"), rawText: true},
 	{name: "html script type=module", hostType: "text/html", build: func(p string) string { return "<script type=module>" + p + "</script>" }, wantType: "module", pre: ident, extract: htmlElemText("script"), rawText: true},
 	{name: "html script type=application/ld+json", hostType: "text/html", build: func(p string) string { return "<script type=\"application/ld+json\">" + p + "</script>" }, wantType: "application/ld+json", pre: ident, extract: htmlElemText("script"), rawText: true},
 	{name: "html script type=text/x-tmpl;a=b", hostType: "text/html", build: func(p string) string { return "<script type=\"text/x-tmpl; a=b\">" + p + "</script>" }, wantType: "text/x-tmpl", wantParams: "a=b;", pre: ident, extract: htmlElemText("script"), rawText: true},
@@ -611,7 +613,7 @@ func norm(s string, h host) string {
 
 // Run executes C11.
 func Run(c *core.Check) {
-	c.Rule = fmt.Sprintf("%d hosts (HTML script with 5 type attributes, style, style=, on*= with and without javascript:, data: URIs percent- and base64-encoded; SVG style element text/CDATA and style=; CSS url(data:…)) x %d payloads (incl. ones that need re-escaping: quotes of both kinds, <, >, &, ]]>, white space, newlines) x registry modes: recording stub (marker output), %d nasty stub outputs, failing stub, failing stub with parse position, failing stub that has written partial output and overwritten the buffer behind its reader, nothing registered, the real minifiers; non-trivial = the host output differs from the host input", len(hosts), len(payloads), len(nasties))
+	c.Rule = fmt.Sprintf("%d hosts (HTML script with 6 type attributes incl. one in mixed case, style, style=, on*= with and without javascript:, data: URIs percent- and base64-encoded; SVG style element text/CDATA and style=; CSS url(data:…)) x %d payloads (incl. ones that need re-escaping: quotes of both kinds, <, >, &, ]]>, white space, newlines) x registry modes: recording stub (marker output), %d nasty stub outputs, failing stub, failing stub with parse position, failing stub that has written partial output and overwritten the buffer behind its reader, nothing registered, the real minifiers; non-trivial = the host output differs from the host input", len(hosts), len(payloads), len(nasties))
 	c.Assumptions = []string{"x/net/html, the own XML reader and the own RFC 2397 decoder extract the embedded value from the host output", "documented pre-processing: trimming of attribute values, removal of a javascript: prefix, entity decoding"}
 	modes := []string{"marker", "fail", "fail-pos", "fail-scribble", "unregistered", "real"}
 	for _, n := range nasties {
